@@ -151,11 +151,19 @@ func SameSet(a, b []string) bool {
 // JSONThresholds builds explicit aspiration levels the way encoding/json delivers them:
 // {"thresholds": [ {"c1": t, ...}, ... ]} with every threshold a free value "<prefix><level>.<crit>".
 func JSONThresholds(prefix string, levels int, crit model.Criteria) map[string]interface{} {
+	return JSONThresholdsOpt(prefix, levels, crit, false)
+}
+
+func JSONThresholdsOpt(prefix string, levels int, crit model.Criteria, concrete bool) map[string]interface{} {
 	ls := make([]interface{}, 0, levels)
 	for l := 0; l < levels; l++ {
 		m := map[string]interface{}{}
 		for _, c := range crit {
-			m[c.Id] = rt.Float(prefix + string(rune('0'+l)) + "." + c.Id)
+			if concrete {
+				m[c.Id] = float64(2 + l)
+			} else {
+				m[c.Id] = rt.Float(prefix + string(rune('0'+l)) + "." + c.Id)
+			}
 		}
 		ls = append(ls, m)
 	}
